@@ -35,6 +35,9 @@ def _geoms(tier):
             ("DDR3", 4, 3, 14, 10, 1, 4096), ("DDR3", 4, 3, 14, 10, 1, 0x10000), ("DDR3", 4, 3, 14, 10, 2, 0x10000),
             ("DDR3", 4, 3, 14, 10, 1, 32), ("SDR", 1, 2, 13, 9, 1, 4096), ("DDR3", 4, 1, 11, 12, 1, 0),
             ("DDR4", 4, 4, 16, 11, 1, 0x10000), ("DDR3", 2, 3, 13, 10, 1, 8192),
+            # bank field close to / at the top of the address (large bank_byte_alignment)
+            ("DDR3", 4, 2, 14, 10, 1, 0x200000), ("DDR3", 4, 2, 14, 10, 1, 0x400000), ("DDR3", 4, 2, 14, 10, 1, 0x800000),
+            ("SDR", 1, 2, 12, 8, 1, 0x40000), ("SDR", 1, 2, 12, 8, 1, 0x80000), ("DDR3", 4, 3, 13, 10, 2, 0x100000),
         ]
         return base
     for memtype, nph in [("SDR", 1), ("SDR", 2), ("SDR", 4), ("DDR", 2), ("DDR3", 4), ("DDR3", 2), ("DDR4", 4), ("LPDDR4", 8)]:
